@@ -319,7 +319,7 @@ def feasible(case):
             for r in case['routes']:
                 if r['intent'] is not None:
                     try:
-                        all_splits(r['intent'], p, budget=4000)
+                        all_splits(effective_intent(case, r), p, budget=4000)
                     except TooBig:
                         ok = False
                         break
@@ -347,12 +347,55 @@ def pred_value(p, env, req):
         d = {n: (v if k == 's' else tuple(v)) for n, k, v in env}
         return d.get(p[1]) == p[2]
     if p[0] == 'm':
-        return req['method'] == p[1]
+        return method_holds(p[1], req['method'])
     if p[0] == 'h':
         return p[1] in req['headers']
+    if p[0] == 'a':
+        return req.get('accept') is None or req['accept'] == p[1]
     if p[0] == 'q':
         return p[1][req.get('tag', 0) % len(p[1])]
     raise ValueError(p)
+
+
+def method_holds(val, method):
+    """request_method=val as documented: GET also lets HEAD through"""
+    return method == val or (val == 'GET' and method == 'HEAD')
+
+
+def prefix_segments(case, r):
+    """the route prefixes in force where the route is declared (Configurator(route_prefix=…), then one per include
+    level), stripped of slashes, the empty ones dropped"""
+    stack = [case.get('top_prefix')] + list((case.get('inc_prefixes') or [])[:r.get('depth', 0) if case['mode'] == 'include' else 0])
+    return [p.strip('/') for p in stack if p and p.strip('/')]
+
+
+def effective_intent(case, r):
+    """the tokens of the route as mounted: the documented join of the prefixes, one slash, the pattern without its
+    leading slashes (prefixes are plain literal text in this generator)"""
+    it = r['intent']
+    if it is None or case['mode'] == 'mapper':
+        return it
+    lit0 = it[0][1].lstrip('/')
+    depth = r.get('depth', 0) if case['mode'] == 'include' else 0
+    if depth == 0:
+        # on the configurator that was given the prefix it is prepended as written (only the slashes at the seam are
+        # normalised); inside an include it has gone through the stacking, which strips both ends
+        top = case.get('top_prefix')
+        if not top:
+            return it
+        if lit0 == '' and len(it) == 1 and r.get('inherit'):
+            first = top
+        else:
+            first = top.rstrip('/') + '/' + lit0
+        return [['lit', first if first.startswith('/') else '/' + first]] + it[1:]
+    segs = prefix_segments(case, r)
+    if not segs:
+        return it
+    if lit0 == '' and len(it) == 1 and r.get('inherit'):
+        first = '/' + '/'.join(segs)
+    else:
+        first = '/' + '/'.join(segs) + '/' + lit0
+    return [['lit', first]] + it[1:]
 
 
 def declared_order(routes):
@@ -382,7 +425,7 @@ def expected(case, req):
     try:
         for i in declared_order(case['routes']):
             r = case['routes'][i]
-            sp = all_splits(r['intent'], path)
+            sp = all_splits(effective_intent(case, r), path)
             if sp and all(pred_value(p, sp[0], req) for p in r['preds']):
                 return {'out': {'id': i, 'match': canon_env(sp[0])}, 'splits': [canon_env(e) for e in sp]}
         return {'out': 'none'}
@@ -420,20 +463,37 @@ def blank_environ(req):
     if req['path'] is not None:
         env['PATH_INFO'] = req['path']
     env['vf.tag'] = req.get('tag', 0)
+    if req.get('accept') is not None:
+        env['HTTP_ACCEPT'] = req['accept']
     for h in req['headers']:
         env['HTTP_' + h.upper().replace('-', '_')] = '1'
     return env
 
 
-def closure_var(fn, name):
-    return fn.__closure__[fn.__code__.co_freevars.index(name)].cell_contents
+def gen_template_of(route, rx_text, pattern):
+    """the %-template of route.generate, reconstructed from its behaviour on sentinel values (None when not possible)"""
+    if rx_text is None:
+        return None
+    try:
+        names = list(re.compile(rx_text).groupindex)
+        sent = {n: 'ZQ%dQZ' % i for i, n in enumerate(names)}
+        if any(x in pattern for x in sent.values()):
+            return None
+        g = route.generate(dict(sent)).replace('%', '%%')
+        for n, x in sent.items():
+            if g.count(x) != 1:
+                return None
+            g = g.replace(x, '%(' + n + ')s')
+        return g
+    except Exception:
+        return None
 
 
 def impl_mapper(case):
     """RoutesMapper.connect / __call__ directly"""
     from pyramid.urldispatch import RoutesMapper
     from pyramid.request import Request
-    from pyramid.predicates import RequestMethodPredicate, HeaderPredicate
+    from pyramid.predicates import RequestMethodPredicate, HeaderPredicate, AcceptPredicate
     mapper = RoutesMapper()
     log = []
     compile_, regex, gen, ids = [], [], [], {}
@@ -449,22 +509,39 @@ def impl_mapper(case):
             def f(info, request):
                 log.append([rid, k]); return p[1][request.environ['vf.tag'] % len(p[1])]
         else:
-            real = RequestMethodPredicate(p[1], None) if p[0] == 'm' else HeaderPredicate(p[1], None)
+            real = RequestMethodPredicate(p[1], None) if p[0] == 'm' else AcceptPredicate(p[1], None) if p[0] == 'a' \
+                else HeaderPredicate(p[1], None)
 
             def f(info, request):
                 log.append([rid, k]); return real(info, request)
         return f
+    import pyramid.urldispatch as UD
+    recorded = []
+
+    class ReProxy:                       # records the text handed to re.compile while a pattern is being compiled
+        def __getattr__(self, k):
+            return getattr(re, k)
+
+        def compile(self, pattern, flags=0):
+            recorded.append(pattern)
+            return re.compile(pattern, flags)
+    real_re = getattr(UD, 're', None)
     for rid, r in enumerate(case['routes']):
+        del recorded[:]
         try:
-            route = mapper.connect(r['name'], r['pattern'], predicates=[mk(rid, k, p) for k, p in enumerate(r['preds'])],
-                                   static=r['static'])
+            if real_re is re:
+                UD.re = ReProxy()
+            try:
+                route = mapper.connect(r['name'], r['pattern'], predicates=[mk(rid, k, p) for k, p in enumerate(r['preds'])],
+                                       static=r['static'])
+            finally:
+                if real_re is re:
+                    UD.re = real_re
             ids[id(route)] = rid
             compile_.append('ok')
-            try:
-                regex.append(closure_var(route.match, 'match').__self__.pattern)
-                gen.append(closure_var(route.generate, 'gen'))
-            except Exception:
-                regex.append(None); gen.append(None)
+            rx_text = recorded[-1] if recorded and isinstance(recorded[-1], str) else None
+            regex.append(rx_text)
+            gen.append(gen_template_of(route, rx_text, r['pattern']))
         except Exception as e:
             compile_.append(err_name(e)); regex.append(None); gen.append(None)
     outs = []
@@ -543,9 +620,24 @@ def impl_router(case):
                 kw['vf%d' % k] = (rid, k, p[0], tuple(p[1]) if p[0] == 'q' else p[1], p[2] if len(p) > 2 else None)
             elif p[0] == 'm':
                 kw['request_method'] = p[1]
+            elif p[0] == 'a':
+                kw['accept'] = p[1]
             else:
                 kw['header'] = p[1]
-        config.add_route(r['name'], r['pattern'], static=r['static'], **kw)
+        # arguments that must not influence dispatch
+        ex = r.get('extras') or []
+        if 'factory' in ex:
+            kw['factory'] = lambda request: holder_root
+        if 'global_views' in ex:
+            kw['use_global_views'] = True
+        if 'pregenerator' in ex:
+            kw['pregenerator'] = lambda request, elements, kw_: (elements, kw_)
+        if r.get('inherit'):
+            kw['inherit_slash'] = True
+        if r.get('usepath'):
+            config.add_route(r['name'], path=r['pattern'], static=r['static'], **kw)
+        else:
+            config.add_route(r['name'], r['pattern'], static=r['static'], **kw)
         if not r['static']:
             config.add_view(rec, route_name=r['name'])
 
@@ -566,12 +658,17 @@ def impl_router(case):
                     declare(cfg, sub, d)
                 counter[0] += 1
                 included.__name__ = 'included_%d' % counter[0]      # include() skips a callable it has seen (by module:name)
-                config.include(included)
+                ips = case.get('inc_prefixes') or []
+                config.include(included, route_prefix=ips[depth] if depth < len(ips) else None)
                 i = j
     compile_ = ['ok'] * len(case['routes'])
     counter = [0]
+
+    class Root:
+        pass
+    holder_root = Root()
     try:
-        config = Configurator()
+        config = Configurator(route_prefix=case.get('top_prefix'))
         for k in range(4):
             config.add_route_predicate('vf%d' % k, VfPred)
         declare(config, list(enumerate(case['routes'])), 0)
@@ -585,6 +682,12 @@ def impl_router(case):
     names = {}
     for i in declared_order(case['routes']):
         names[case['routes'][i]['name']] = i
+    try:
+        by_name = {r.name: r.pattern for r in app.routes_mapper.get_routes(include_static=True)}
+        connected = [by_name.get(r['name']) for r in case['routes']]
+        order = [r.name for r in app.routes_mapper.get_routes()]
+    except Exception:
+        connected, order = None, None
     outs = []
     for req in case['reqs']:
         seen.clear()
@@ -607,7 +710,7 @@ def impl_router(case):
             out = err_name(e)
         if out != outs[k]['out']:
             history.append({'req': k, 'first': outs[k], 'again': {'out': out}})
-    return {'compile': compile_, 'outs': outs, 'history': history}
+    return {'compile': compile_, 'outs': outs, 'history': history, 'connected': connected, 'order': order}
 
 
 def is_external(pattern):
@@ -661,8 +764,8 @@ def wire_pred(p, req):
         return ['c', bool(p[1])]
     if p[0] == 'e':
         return ['e', codes(p[1]), codes(p[2])]
-    if p[0] == 'm':
-        return ['c', req['method'] == p[1]]
+    if p[0] in ('m', 'a'):
+        return ['c', bool(pred_value(p, None, req))]
     if p[0] == 'q':
         return ['c', bool(p[1][req.get('tag', 0) % len(p[1])])]
     return ['c', p[1] in req['headers']]
@@ -677,6 +780,14 @@ def model_lines(case):
     for req in case['reqs']:
         routes = [{'name': codes(r['name']), 'pattern': codes(r['pattern']), 'preds': [wire_pred(p, req) for p in r['preds']],
                    'static': bool(r['static'])} for r in case['routes']]
+        if case['mode'] != 'mapper':
+            for w, r in zip(routes, case['routes']):
+                tp = case.get('top_prefix')
+                w['top'] = None if tp is None else codes(tp)
+                w['prefixes'] = [None if p is None else codes(p) for p in
+                                 (case.get('inc_prefixes') or [])[:r.get('depth', 0) if case['mode'] == 'include' else 0]]
+                w['usepath'] = bool(r.get('usepath'))
+                w['inherit'] = bool(r.get('inherit'))
         lines.append({'ucd': ucd, 'rxlib': wlib, 'routes': routes,
                       'path': None if req['path'] is None else [ord(c) for c in req['path']]})
     return lines, lib
@@ -770,6 +881,13 @@ def check_case(case, replies=None):
                                  'model': {'gen': [None if b is None else txt(b) for b in mo['gen']]}}); continue
             if mo.get('unsupported'):
                 continue
+            if router and k == 0 and got.get('connected') is not None and 'connected' in mo:
+                mc = [x if isinstance(x, str) else txt(x) for x in mo['connected']]
+                if mc != got['connected']:
+                    mism.append({'case': dict(case, reqs=[req]), 'impl': {'connected': got['connected']}, 'model': {'connected': mc}}); continue
+                morder = [case['routes'][i]['name'] for i in mo['routelist']]
+                if got.get('order') is not None and morder != got['order']:
+                    mism.append({'case': dict(case, reqs=[req]), 'impl': {'routelist': got['order']}, 'model': {'routelist': morder}}); continue
             if not router and (mo['routelist'] != got['routelist'] or mo['statics'] != got['statics']):
                 mism.append({'case': dict(case, reqs=[req]), 'impl': {'routelist': got['routelist'], 'statics': got['statics']},
                              'model': {'routelist': mo['routelist'], 'statics': mo['statics']}}); continue
@@ -986,9 +1104,9 @@ def to_wsgi(text):
     return text.encode('utf-8').decode('latin-1')
 
 
-def gen_reqs(rng, routes, n):
+def gen_reqs(rng, routes, n, intents=None):
     reqs = []
-    intents = [r['intent'] for r in routes if r['intent']]
+    intents = [r['intent'] for r in routes if r['intent']] if intents is None else [i for i in intents if i]
     for _ in range(n):
         r = rng.random()
         if intents and r < 0.55:
@@ -1006,12 +1124,14 @@ def gen_reqs(rng, routes, n):
             w = w[:i] + rng.choice(INVALID_UTF8) + w[i:]
         elif r < 0.075:
             w = None
-        reqs.append({'path': w, 'method': rng.choice(['GET', 'GET', 'POST']),
-                     'headers': ['X-A'] if rng.random() < 0.3 else []})
+        reqs.append({'path': w, 'method': rng.choice(['GET', 'GET', 'POST', 'HEAD']),
+                     'headers': ['X-A'] if rng.random() < 0.3 else [],
+                     'accept': rng.choice([None, None, 'text/html', 'application/json'])})
     # the same path again, later, with other predicate outcomes (a long-lived mapper must not remember)
     for _ in range(rng.choice([0, 1, 2, 3])):
         q = dict(rng.choice(reqs))
-        q['method'] = rng.choice(['GET', 'POST'])
+        q['method'] = rng.choice(['GET', 'POST', 'HEAD'])
+        q['accept'] = rng.choice([None, 'text/html', 'application/json'])
         q['headers'] = ['X-A'] if rng.random() < 0.5 else []
         reqs.append(q)
     for i, q in enumerate(reqs):
@@ -1032,8 +1152,10 @@ def gen_preds(rng, intent, router):
                 preds.append(['q', [rng.random() < 0.55 for _ in range(rng.choice([2, 3, 5]))]])
             elif r < 0.75 and names:
                 preds.append(['e', rng.choice(names), rng.choice(['a', 'v', '12', 'x', 'A'])])
-            elif r < 0.9 and not any(p[0] == 'm' for p in preds):
+            elif r < 0.86 and not any(p[0] == 'm' for p in preds):
                 preds.append(['m', rng.choice(['GET', 'POST'])])
+            elif r < 0.92 and not any(p[0] == 'a' for p in preds):
+                preds.append(['a', rng.choice(['text/html', 'application/json'])])
             elif not any(p[0] == 'h' for p in preds):
                 preds.append(['h', 'X-A'])
     return preds[:3]
@@ -1123,7 +1245,29 @@ def gen_case(rng, mode=None, malformed=False):
         for r in routes:
             if any(t[0] != 'lit' and t[1] in ('traverse', 'subpath') for t in (r['intent'] or [])):
                 r['intent'] = None
-    case = {'mode': mode, 'routes': routes, 'reqs': gen_reqs(rng, routes, rng.choice([4, 6, 8]))}
+    case = {'mode': mode, 'routes': routes}
+    if router:
+        # the add_route layer: route prefixes (plain literal text, slashes at either end or not), path= for pattern=,
+        # the empty pattern with and without inherit_slash, arguments that must not influence dispatch
+        def gen_prefix():
+            r = rng.random()
+            if r < 0.35:
+                return None
+            body = '/'.join(rng.choice(['api', 'v1', 'a', 'x.y', 'A-b', '_', '~u']) for _ in range(rng.choice([1, 1, 2])))
+            return rng.choice(['', '/', '//']) + body + rng.choice(['', '/', '//']) if r < 0.9 else rng.choice(['', '/', '//'])
+        case['top_prefix'] = gen_prefix() if rng.random() < 0.3 else None
+        if mode == 'include':
+            case['inc_prefixes'] = [gen_prefix() if rng.random() < 0.7 else None for _ in range(3)]
+        for r in routes:
+            if rng.random() < 0.12:
+                r['usepath'] = True
+            if rng.random() < 0.06 and r['intent'] is not None:
+                r['pattern'], r['intent'] = '', [['lit', '/']]
+                r['inherit'] = rng.random() < 0.5
+            ex = [x for x in ('factory', 'global_views', 'pregenerator') if rng.random() < 0.15]
+            if ex:
+                r['extras'] = ex
+    case['reqs'] = gen_reqs(rng, routes, rng.choice([4, 6, 8]), [effective_intent(case, r) for r in routes])
     feasible(case)
     return case
 
@@ -1141,7 +1285,11 @@ def permuted(rng, case, k):
 
 
 def strip_case(case):
-    return {'mode': case['mode'], 'routes': [{k: v for k, v in r.items() if k != 'intent'} for r in case['routes']], 'reqs': case['reqs']}
+    out = {'mode': case['mode'], 'routes': [{k: v for k, v in r.items() if k != 'intent'} for r in case['routes']], 'reqs': case['reqs']}
+    for k in ('top_prefix', 'inc_prefixes'):
+        if k in case:
+            out[k] = case[k]
+    return out
 
 
 # ------------------------------------------------------------------------------------------------ run / search / replay
